@@ -963,9 +963,16 @@ impl<'a> Ctx<'a> {
                     // The request must be answered by the open time-out; only what happens until then
                     // can excuse silence (a process stall of this node moves the deadline).
                     let mut deadline = *t + (self.sub_open_ms + 2_000) * 1_000_000;
-                    let first_deadline = deadline;
-                    for f in self.freezes.iter().filter(|f| f.0 == i && f.1 <= first_deadline && f.2 >= *t) {
-                        deadline = deadline.max(f.2 + (self.sub_open_ms + 2_000) * 1_000_000);
+                    // (to a fixpoint: a second stall that begins before the moved deadline - e.g. while
+                    // the first one is still in force - moves it again)
+                    loop {
+                        let cur = deadline;
+                        for f in self.freezes.iter().filter(|f| f.0 == i && f.1 <= cur && f.2 >= *t) {
+                            deadline = deadline.max(f.2 + (self.sub_open_ms + 2_000) * 1_000_000);
+                        }
+                        if deadline == cur {
+                            break;
+                        }
                     }
                     let closed_after = evs.iter().any(|r| r.t >= *t && r.t <= deadline && matches!(&r.k, K::PClosed { proto: p, peer: q } if *p == proto && q == peer));
                     // (a host that vanished silently: SimNet records the instant of the vanishing,
